@@ -27,19 +27,24 @@ def is_from_bytes(a):
 
 
 class PathCtx:
-  def __init__(self, walker, facts, nparam, q, c, r):
+  def __init__(self, walker, facts, nparam, q, c, r, inst=None):
     self.w = walker
     self.facts = facts
     self.n = nparam
     self.q = q
     self.c = c
     self.r = r
+    self.inst = inst or {}     # attribute name -> int: one concrete instance of the class (constructor arguments of a registry entry)
 
   def subst(self, p):
     """n := c*q + r, then re-normalise (folds mod/fdiv on the residue)."""
     if not isinstance(p, Poly):
       return p
     p2 = p.deep_subst(self.n.as_atom(), self.q * self.c + self.r)
+    if self.inst:
+      for a in list(p2.all_atoms()):
+        if a.kind == "attr" and len(a.args) == 2 and repr(a.args[0]) == "param('self')" and a.args[1] in self.inst:
+          p2 = p2.deep_subst(a, Poly.const(self.inst[a.args[1]]))
     return self.simp(rebuild(p2))
 
   def simp(self, p):
@@ -140,6 +145,7 @@ class WidthAnalysis:
     self.n = nparam
     self.q = P("q")
     self.growth = self.loop_growth()
+    self.wgrowth = self.while_growth()
 
   # ------------------------------------------------------------------ loop summaries
   def loop_growth(self):
@@ -193,6 +199,46 @@ class WidthAnalysis:
             out[after.as_atom()] = ("same", visit["pre_env"].get(var), 0, trips)   # element stores keep the length
           elif len(per) == 1 and None not in per:
             out[after.as_atom()] = ("list", visit["pre_env"].get(var), per.pop(), trips)
+    return out
+
+  def while_growth(self):
+    """after-loop symbol -> (pre value, chunk term, k, bound) for `while k * len(x) < bound: x += chunk` (every pass appends one chunk)."""
+    out = {}
+    w = self.w
+    for info in w.loop_info.values():
+      if not isinstance(info["node"], ast.While):
+        continue
+      for visit in info.get("visits", []):
+        paths = [bp for bp in info["body_paths"] if bp[4] is visit]
+        if not paths or any(kind != "fall" for kind, _, _, _, _ in paths):
+          continue
+        for var, after in visit.get("after_env", {}).items():
+          head = visit["head"].env.get(var)
+          if not isinstance(after, Poly) or after.as_atom() is None or not isinstance(head, Poly) or head.as_atom() is None:
+            continue
+          chunks = set()
+          conds = set()
+          for kind, val, s_, since, _ in paths:
+            nv = s_.env.get(var)
+            if not isinstance(nv, Poly):
+              chunks.add(None)
+              continue
+            d = nv - head
+            chunks.add(d if d.as_atom() is not None else None)
+            cnd = [c_ for c_, pol, node in s_.pc if node is info["node"] and pol]
+            la = Poly.atom(Atom("len", head))
+            hit = None
+            for c_ in cnd:
+              if c_[0] == "cmp" and c_[1] == "Lt" and isinstance(c_[2], Poly) and isinstance(c_[3], Poly) and len(c_[2].t) == 1:
+                (mono, coef), = c_[2].t.items()
+                if mono == la.t and False:
+                  pass
+                if len(mono) == 1 and mono[0][0] == Atom("len", head) and mono[0][1] == 1 and coef.denominator == 1 and coef > 0:
+                  hit = (int(coef), c_[3])
+            conds.add(hit)
+          if len(chunks) == 1 and None not in chunks and len(conds) == 1 and None not in conds:
+            k, bound = next(iter(conds))
+            out[after.as_atom()] = (visit["pre_env"].get(var), next(iter(chunks)), k, bound)
     return out
 
   # ------------------------------------------------------------------ lengths
@@ -269,6 +315,25 @@ class WidthAnalysis:
     L = cx.length_from_facts(b)
     if L is not None:
       return L, None
+    if a in self.wgrowth:
+      pre, chunk, k, bound = self.wgrowth[a]
+      L0, _ = self.bytes_len(pre, cx) if pre is not None else (None, None)
+      if L0 is None or L0.as_int() != 0:
+        raise Unknown("length before the loop")
+      C, _ = self.bytes_len(chunk, cx)
+      C = cx.subst(C)
+      Ci = C.as_int()
+      if Ci is None or Ci <= 0:
+        raise Unknown("length of byte string %r: chunk size %r of the filling loop is not a constant" % (b, C))
+      lin = cx.linear_in_q(cx.subst(bound))
+      if lin is None:
+        raise Unknown("loop bound %r" % (bound,))
+      cq, r0 = lin
+      step = k * Ci
+      if cq % step != 0:
+        raise Unknown("length of byte string %r: needs residues modulo %d" % (b, step))
+      # least multiple of the chunk with k * L >= bound
+      return (cx.q * (cq // step) + (-(-r0 // step))) * Ci, None
     raise Unknown("length of byte string %r" % (b,))
 
   def bytes_len_of_arg(self, x, cx):
@@ -389,8 +454,8 @@ def moduli_in(walker, n):
   return ds
 
 
-def analyse(repo, func):
-  """-> list of dicts {path, residue, ok (True/False/None), detail}"""
+def analyse(repo, func, inst=None, extra_moduli=()):
+  """-> list of dicts {path, residue, ok (True/False/None), detail}; inst fixes self.<attr> to the integers of one constructed instance."""
   w = sym.Walker(repo, func)
   w.run()
   params = func.params()
@@ -399,6 +464,7 @@ def analyse(repo, func):
   n = P("param", params[0])
   wa = WidthAnalysis(w, n)
   ds = moduli_in(w, n)
+  ds |= set(extra_moduli)
   c = 1
   for d in ds:
     c = c * d // math.gcd(c, d)
@@ -413,7 +479,7 @@ def analyse(repo, func):
       if node is not None and hasattr(node, "test"):
         conds.append(("" if pol else "not ") + " ".join(ast.unparse(node.test).split()))
     for r in range(c):
-      cx = PathCtx(w, e.facts, n, wa.q, c, r)
+      cx = PathCtx(w, e.facts, n, wa.q, c, r, inst)
       if not cx.feasible():
         continue
       try:
